@@ -10,6 +10,7 @@ import HdwModel.Spec.Bip39English
 import HdwModel.Model.Wordlist
 import HdwModel.Spec.Bip32
 import HdwModel.Spec.Ecdsa
+import HdwModel.Spec.Rfc6979
 import HdwModel.Model.Nfkd
 
 namespace Hdw.Driver.Judge
@@ -181,6 +182,22 @@ def judgeSign (key digest : Bytes) (resp : String) : Verdict :=
       if !(1 ≤ r && r < n && 1 ≤ s && s ≤ n / 2) then .fails "r, s out of range (1 ≤ r < n, 1 ≤ s ≤ n/2)"
       else if !(Spec.Ecdsa.verify secpCurve Q z r s) then .fails "ECDSA verification fails"
       else if Spec.Ecdsa.recover secpCurve z r s (par == 1) != some Q then .fails "recovery does not return the signer's key"
+      else if z < n then
+        -- RFC 6979 §3.2 (HMAC-SHA256, no additional data), then the textbook ECDSA equations and low-s normalisation
+        match Spec.Rfc6979.nonce (Prim.hmac Prim.sha256 64) n d digest 64 with
+        | some k =>
+          match Prim.Secp.mulG k with
+          | some (x, _) =>
+            let r' := x % n
+            let rec pw (b e m acc : Nat) (fuel : Nat) : Nat := match fuel with
+              | 0 => acc
+              | f + 1 => if e == 0 then acc else pw (b * b % m) (e / 2) m (if e % 2 == 1 then acc * b % m else acc) f
+            let kinv := pw (k % n) (n - 2) n 1 260
+            let s0 := (kinv * ((z + r' * d) % n)) % n
+            let s' := if s0 > n / 2 then n - s0 else s0
+            expect (r == r' && s == s') "for a digest below n the signature must be the RFC 6979 deterministic one (nonce from HMAC-SHA256 of key and digest, no additional data), low-s normalised"
+          | none => .skip
+        | none => .skip
       else .holds
     | _, _, _ => .fails "unparsable"
   | ["ok", why] => .fails ("the signature is not a function of (key, digest) alone: " ++ why)
